@@ -178,9 +178,11 @@ def set_scores_event(ev, s, o, gam, cls_="neg", h=1):
 def shift_event(ev, s, o, gam, d=2, h=1):
     """History step: a constant is added to every score IN PLACE (the arrays keep their identity and
     dtype).  Only for affine value maps.  Returns the new abstract object (or None)."""
+    delta = float(gam(d)) - float(gam(0))
+    if any(float(gam(v)) + delta != float(gam(v + d)) for v in list(o["pos"]) + list(o["neg"])):
+        return None          # the shift is not exact in floating point under this value map: not a history to judge
     e = ev("ShiftScores", h=h, d=d, post=dict(EMPTY_POST))
     try:
-        delta = float(gam(d)) - float(gam(0))
         for arr_ in (s.pos, s.neg):
             arr_ += np.asarray(delta).astype(arr_.dtype)
         o2 = dict(o, pos=[v + d for v in o["pos"]], neg=[v + d for v in o["neg"]])
